@@ -342,7 +342,7 @@ func (e *Env) templateRules() {
 		return
 	}
 	leavesOf := func(fn *types.Func) []*ir.Leaf {
-		ls, err := ir.Leaves(e.P.SSAFunc(fn), ir.LeafOptions{Forward: true, Effects: true})
+		ls, err := ir.Leaves(e.P.SSAFunc(fn), ir.LeafOptions{Forward: true, Effects: true, Inline: e.inlineHelpers(exec, gts)})
 		if err != nil {
 			c.Undecided(rule, fname(fn), e.P.Pos(fn.Pos()), err.Error())
 			return nil
